@@ -37,6 +37,10 @@ two-level configurations, two three-level, two pause/chainDeferred and two re-en
 ones, one action shorter; three pruned explorations) is run again under defer.setDebugging(True)
 with the same oracle; the process-global flag is restored afterwards.
 
+Subclass levels: another block (13 two-level and three three-level configurations, one
+pause/chainDeferred one; three explorations) runs with every Deferred of the chain being an
+instance of a trivial Deferred subclass - "a Deferred" in the statement includes those.
+
 Re-entrant cancellers: a canceller may fire the next or the previous Deferred of the chain (an
 AlreadyCalledError there is caught inside the canceller and logged; a Deferred in state S swallows
 it), call cancel() on the next one, or fire its own Deferred and then raise.  The model runs those
@@ -87,7 +91,7 @@ FLOORS = {"steps_compared": 1000000, "already_called_errors": 100000, "swallowed
           "reentrant_canceller_calls": 10000, "canceller_nested_already_called": 1000,
           "histories_reentrant_cancellers": 50000, "histories_pause_chaindeferred": 30000,
           "chaindeferred_pairs_run": 10000, "cancel_no_effect_fired_paused": 5000,
-          "histories_with_debugging_on": 30000}
+          "histories_with_debugging_on": 30000, "histories_with_deferred_subclass_levels": 30000}
 READY = True
 
 KINDS = ("none", "cb", "eb", "nothing", "raises")
@@ -156,6 +160,16 @@ class Boom(Exception):
 _TW = {}
 _CNT = {}
 _DEBUGGING = [False]   # defer.setDebugging(True) is in force for the histories being run
+_SUBCLS = [None]       # when set: every Deferred of the histories is an instance of this Deferred subclass
+
+
+def _subclass():
+    if "Sub" not in _TW:
+        class HarnessDeferred(_tw()["D"]):
+            """A trivial application subclass of Deferred."""
+
+        _TW["Sub"] = HarnessDeferred
+    return _TW["Sub"]
 
 
 def _bump(name):
@@ -201,7 +215,7 @@ class World:
         self.hist = []
         self.log = []        # real events of the current action
         self.bad = False
-        D = tw["D"]
+        D = _SUBCLS[0] or tw["D"]
         self.ds = [D(self._canceller(k)) if cfg[k] != "none" else D() for k in range(n)]
         for k, d in enumerate(self.ds):
             d.addBoth(self._rec("rec", k))
@@ -450,7 +464,8 @@ class World:
              "expected_events": self.exp, "observed_events": self.log,
              "expected_called_result": model_state, "observed_called_result": real_state,
              "model_states": list(self.ms), "model_waiting": list(self.waiting),
-             "cancel_forwarded_levels": self.fwd, "debugging": _DEBUGGING[0]}
+             "cancel_forwarded_levels": self.fwd, "debugging": _DEBUGGING[0],
+             "deferred_subclass": _SUBCLS[0] is not None}
         if not ok_exc:
             if want_exc == "AlreadyCalledError":
                 key, what = "second-result-accepted", "a further callback/errback on a fired Deferred did not raise AlreadyCalledError"
@@ -623,6 +638,8 @@ def run(ctx):
                     ctx.count("histories_reentrant_cancellers", cnt)
                 if debugging:
                     ctx.count("histories_with_debugging_on", cnt)
+                if _SUBCLS[0] is not None:
+                    ctx.count("histories_with_deferred_subclass_levels", cnt)
 
     enumerate_spaces(spaces, False)
     # the statement holds whatever Deferred.debug is: a block of histories again with defer.setDebugging(True)
@@ -639,6 +656,16 @@ def run(ctx):
     finally:
         defer.setDebugging(False)
         _DEBUGGING[0] = False
+    # the statement says "a Deferred": a block with every level an instance of a trivial Deferred subclass
+    _SUBCLS[0] = _subclass()
+    try:
+        enumerate_spaces([(CONFIGS2, short), (CONFIGS3[:3], short), (CONFIGS2_EXT[:1], short - 1)], False)
+        if ctx.shard == 0:
+            for cfg in [("none", "nothing"), ("none", "none", "nothing"), ("nothing", "none", "cb", "raises")]:
+                explore.dfs(ctx, lambda cfg=cfg: World(ctx, cfg), 10, shard_depth=0)
+                ctx.count("explorations_with_deferred_subclass_levels")
+    finally:
+        _SUBCLS[0] = None
     ctx.count("enumerated_histories", tot[0])
     ctx.exhaustive = None
     # deeper, with state pruning (E1)
@@ -670,9 +697,11 @@ def replay(ctx, w):
     was = defer.getDebugging()
     defer.setDebugging(bool(x.get("debugging")))
     _DEBUGGING[0] = bool(x.get("debugging"))
+    _SUBCLS[0] = _subclass() if x.get("deferred_subclass") else None
     try:
         run_history(ctx, tuple(x["config"]), tuple(x["history"]), "replay")
     finally:
         defer.setDebugging(was)
         _DEBUGGING[0] = False
+        _SUBCLS[0] = None
     _flush(ctx)
